@@ -23,6 +23,11 @@ ops (every line starts with `reset`: the harness rebuilds its fixture from the l
                                        B  a moderator's session creates the record (empty) and keeps it open     F  it writes the ban
                                           (now+3600) through the handle it holds and closes it
                                        P  the user performs <op>      answer per P: ok|err:<id> : same|changed : none|file|dir (the record afterwards)
+  reset bmfield <op> <tokens>        the BM field of the written board is the tokens joined by `/` (≤ 38 bytes), its moderator cache is
+                                     rebuilt with cache.ParseBMList; the board demands 2550 login days; the 12-character account
+                                     `verifuverifu` (100 days) performs <op>.  tokens: V v Vx Vxx c p k s z e (see bmToken)
+  reset bbsid <board> <name hex>     the request id "<bid of board>_<name>" goes through bbs.BBoardID.ToRaw; if accepted, ptt.NewPost
+                                     with what it returned.  Board vsrc demands 2550 login days.  answer: err:idmismatch same | <newpost>
   reset thread ao=<self|other> at=<int32> <steps>
                                      a history on ONE article of board vsrc (CPLOG set) written under the id `verifu` (self) or another
                                      id, its entry's Modified starting at `at`.  steps, `/`-separated, ≤ 16, ≥ 1 T:
@@ -335,6 +340,28 @@ def banStep (op : Op) (st : BanDisk × List String) : BStep → BanDisk × List 
         | _ => "file"
       (d', st.2 ++ [(match o.err with | none => "ok" | some e => "err:" ++ e) ++ (if o.touched then ":changed" else ":same") ++ ":" ++ kind])
 
+/-! the BM field of a board (`reset bmfield`) and bbs-level board ids (`reset bbsid`) -/
+
+def idV12 : List Nat := "verifuverifu".toUTF8.toList.map (·.toNat)
+
+/-- a `/`-token of the BM field: (names an account at all, names the 12-character account `verifuverifu`).
+V the id, v the id in other case, Vx / Vxx the id followed by one / four more characters (no account: a UserID_t
+holds 13 bytes, so the token fills it without a NUL), c p k s other accounts, z no account, e empty. -/
+def bmToken (t : String) : Option (Bool × Bool) :=
+  if t = "V" || t = "v" then some (true, true)
+  else if t = "c" || t = "p" || t = "k" || t = "s" then some (true, false)
+  else if t = "Vx" || t = "Vxx" || t = "z" || t = "e" then some (false, false)
+  else none
+
+def bmTokenLen (t : String) : Nat :=
+  if t = "V" || t = "v" then 12 else if t = "Vx" then 13 else if t = "Vxx" then 16 else if t = "c" then 9
+  else if t = "p" || t = "k" || t = "s" then 5 else if t = "z" then 10 else 0
+
+/-- cache.ParseBMList: the first MAX_BMs (4) tokens that name an account are the moderators. -/
+def bmListed (ts : List (Bool × Bool)) : Bool := ((ts.filter (·.1)).take 4).any (·.2)
+
+def fixtureBoards : List String := ["SYSOP", "SECURITY", "ALLPOST", "ALLHIDPOST", "NEWIDPOST", "UnAnonymous", "vsrc", "vtgt", "vsrc2"]
+
 def step (_ : Unit) (ws : List String) : Unit × String :=
   let out := match ws with
     | ["facts"] =>
@@ -350,6 +377,30 @@ def step (_ : Unit) (ws : List String) : Unit × String :=
             let (rs, w) := flood u b k 0 []
             ",".intercalate rs ++ s!" pt={(posttimesOf w).toNat}"
         | _, _, _ => "bad-op"
+    | ["reset", "bmfield", op, toks] =>
+        match parseOp op, (toks.splitOn ",").mapM bmToken with
+        | some op, some ts =>
+            let len := ((toks.splitOn ",").map bmTokenLen).foldl (· + ·) 0 + (toks.splitOn ",").length - 1
+            if len > 38 then "bad-op" else
+            let u : User := { witnessCoolingDown.u with id := idV12 }
+            let a : Article := { ownArticle with entOwner := idV12 }
+            let x : Row := { witnessCoolingDown with cd := 0, u := u, art := a }
+            let x := match op with
+              | .crosspost => { x with tgt := { x.tgt with limitLogins := 255, inBM := bmListed ts } }
+              | _ => { x with src := { x.src with limitLogins := 255, inBM := bmListed ts } }
+            showOutcome (run op x)
+        | _, _ => "bad-op"
+    | ["reset", "bbsid", bidName, req] =>
+        -- bbs.BBoardID("<bid of bidName>_<req>").ToRaw(), then ptt.NewPost as the bbs layer does; board vsrc demands 2550
+        -- login days, every other board is plain
+        match parseName req with
+        | some r =>
+            if !fixtureBoards.contains bidName || r.any (fun c => c == 95 || c == 47 || c ≤ 32) || r.length > 12 then "bad-op" else
+            if r ≠ bidName.toUTF8.toList.map (·.toNat) then "err:idmismatch same" else
+            let x : Row := { witnessCoolingDown with cd := 0 }
+            let b : Board := { plainBoard r with limitLogins := if bidName = "vsrc" then 255 else 0 }
+            showOutcome (run .newpost { x with src := b })
+        | none => "bad-op"
     | ["reset", "banrec", op, steps] =>
         match parseOp op, (steps.splitOn "/").mapM parseBStep with
         | some op, some sts =>
